@@ -71,3 +71,16 @@ def pick(flag, perm):
         return 2
     return 3
 
+
+
+class Counter:
+    def __init__(self):
+        self.n = 0
+
+    def bump(self):
+        self.n += 1
+
+    def run(self, k):
+        for _ in range(k):
+            self.bump()
+        return self.n
